@@ -197,6 +197,85 @@ def g_maxquot(c, kind):
     run_vectors_with_modes(c, calls, 'maxquot')
 
 
+def knuth_cases(c):
+    """operands realising every digit class of the 256/128-bit division (TLC grid "knuth"): normalisation shift, divisor
+    words (yn1, yn0), quotient digit, first partial remainder (incl. the classes where the corrected remainder is exactly
+    0 or 2^64), stage (0: first digit via a*b, 1: second digit via a*b, 2: first digit via a*10^k).
+    Returns lists of ('mul', a, b, m) and ('shift', a, k, m)."""
+    B = 1 << 64
+    MAXC = 2**127 - 1
+    out = []
+    for nbc, y1c, y0c, qc, rc, st in grid(c, 'knuth'):
+        nb = [1, 2, 32, 40, 52, 63][nbc]
+        yn1 = [1 << 63, (1 << 63) + 1, B - 1, B - 2, (1 << 63) | 0x123456789ABCDEF][y1c]
+        mask = (B - 1) & ~((1 << nb) - 1)
+        yn0 = [(B - 1) & mask, 0, (1 << nb) & (B - 1), 0x0F0F0F0F0F0F0F0F & mask][y0c]
+        m = ((yn1 << 64) | yn0) >> nb
+        q = [1, 2, 3, (1 << 61) - 1, 1 << 32, 0x1234567][qc]
+        edge = B - yn1
+        rhat = min([0, 1, edge, max(edge - 1, 0), edge + 1, yn1 - 1, edge // 2, yn1 // 3][rc], yn1 - 1)
+        top = q * yn1 + rhat
+        if top >= 1 << 126 or m < B:
+            continue
+        if st in (0, 1):
+            total = (128 - nb) if st == 0 else (64 - nb)
+            if total < 0:
+                continue
+            t1 = min(126 - top.bit_length(), total)
+            t2 = total - t1
+            if t1 < 0 or t2 > 126:
+                continue
+            out.append(('mul', top << t1, 1 << t2, m))
+        else:
+            # a * 10^k: top must be a multiple of 5^k; solve q for it (yn1 invertible mod 5^k)
+            if yn1 % 5 == 0 or nb < 40:
+                continue
+            k = min((128 - nb) * 100 // 332 + 1, 26)
+            p5 = 5**k
+            q2 = (-rhat * pow(yn1, -1, p5)) % p5
+            if q2 == 0:
+                q2 = p5
+            top = q2 * yn1 + rhat
+            sh = 128 - nb - k
+            if q2 >= 1 << 62 or sh < 0 or top % p5:
+                continue
+            a = (top // p5) << sh
+            if a > MAXC:
+                continue
+            out.append(('shift', a, k, m))
+    return out
+
+
+def g_knuth(c, kind):
+    calls = []
+    cases = knuth_cases(c)
+    for mode in MODES:
+        calls.append({'ev': 'set', 't': 1, 'mode': mode})
+        for i, cs in enumerate(cases):
+            sx, sy = [(1, 1), (-1, 1), (1, -1), (-1, -1)][i % 4]
+            if kind == 'wide':
+                first = mode == MODES[0]          # the floor primitives do not depend on the mode
+                if cs[0] == 'mul':
+                    if first:
+                        for s1, s2 in ((1, 1), (-1, 1), (1, -1), (-1, -1)):
+                            calls.append({'ev': 'wide', 't': 1, 'op': 'i256_div_mod_floor', 'a': jnum(s1 * cs[1]), 'b': jnum(s2 * cs[2]), 'k': 0, 'm': jnum(cs[3]), 'mode': mode})
+                else:
+                    calls.append({'ev': 'wide', 't': 1, 'op': 'i128_shifted_div_rounded', 'a': jnum(sx * cs[1]), 'b': jnum(0), 'k': cs[2], 'm': jnum(sy * cs[3]), 'mode': mode})
+                    if first:
+                        calls.append({'ev': 'wide', 't': 1, 'op': 'i128_shifted_div_mod_floor', 'a': jnum(sx * cs[1]), 'b': jnum(0), 'k': cs[2], 'm': jnum(cs[3]), 'mode': mode})
+                        calls.append({'ev': 'wide', 't': 1, 'op': 'i128_shifted_div_mod_floor', 'a': jnum(-sx * cs[1]), 'b': jnum(0), 'k': cs[2], 'm': jnum(cs[3]), 'mode': mode})
+            elif cs[0] == 'shift':
+                a, k, m = cs[1], cs[2], cs[3]
+                if kind == 'div' and 18 <= k <= 36:
+                    calls.append({'ev': 'bin', 't': 1, 'op': ['div', 'checked_div'][i % 2], 'x': jdec((sx * a, 0)), 'y': jdec((sy * m, k - 18)), 'xt': 'dec', 'yt': 'dec', 'n': 0, 'acc': 0, 'form': i % 4})
+                elif kind == 'div_rounded':
+                    q = min(18, k)
+                    n = k - q
+                    if n <= 18:
+                        calls.append({'ev': 'bin', 't': 1, 'op': 'div_rounded', 'x': jdec((sx * a, 0)), 'y': jdec((sy * m, q)), 'xt': 'dec', 'yt': 'dec', 'n': n, 'acc': 0, 'form': i % 4})
+    run_vectors_with_modes(c, calls, 'knuth')
+
+
 def plan_C01(c):
     c.mc('MC_BigInt')
     c.mc('MC_Refine', cfg='MC_Refine_ok' if c.tier == 'quick' else 'MC_Refine_ok_full')
@@ -218,6 +297,7 @@ def plan_C03(c):
     c.mc('MC_SpecLaws', cfg='MC_SpecLaws' if c.tier != 'quick' else 'MC_SpecLaws_quick')
     g_small(c, ['div', 'checked_div'])
     g_maxquot(c, 'div')
+    g_knuth(c, 'div')
     g_intforms(c, ['div', 'checked_div'], with_modes=c.tier != 'quick')
     if c.tier != 'quick':
         g_bounds(c, ['div', 'checked_div'], with_modes=True)
@@ -229,6 +309,7 @@ def plan_C04(c):
     c.mc('MC_Refine', cfg='MC_Refine_trunc_first', expect='violation')      # the double rounding of finding F2 must be rejected
     g_small(c, ['div_rounded', 'mul_rounded', 'quantize'])
     g_maxquot(c, 'div_rounded')
+    g_knuth(c, 'div_rounded')
     g_intforms(c, ['div_rounded', 'quantize'], with_modes=c.tier != 'quick')
     v(c, 'c04', 5000, 150000)
 
@@ -391,6 +472,7 @@ def plan_C16(c):
     c.mc('MC_Knuth', cfg='MC_Knuth_ok' if c.tier == 'quick' else 'MC_Knuth_ok_w4')
     c.mc('MC_Knuth', cfg='MC_Knuth_f1', expect='violation')     # the sign fix-up of finding F1 must be rejected
     g_maxquot(c, 'wide')
+    g_knuth(c, 'wide')
     v(c, 'c16', 4000, 120000)
 
 
